@@ -2,7 +2,7 @@ use std::fmt::Display;
 
 use compact_str::{CompactString, ToCompactString, format_compact};
 use num_traits::{Pow, ToPrimitive};
-use pretty_dtoa::FmtFloatConfig;
+use pretty_dtoa::{FmtFloatConfig, RoundMode};
 
 use crate::pretty_print::FormatOptions;
 
@@ -36,6 +36,14 @@ impl Number {
     /// Pretty prints with default format options.
     pub fn pretty_print(self) -> CompactString {
         self.pretty_print_with(&FormatOptions::default())
+    }
+
+    /// Rounds (half away from zero) to the given number of decimal digits. Numbers
+    /// that are too large to have a fractional part are returned unchanged.
+    fn round_to_decimals(number: f64, decimals: i8) -> f64 {
+        let scale = 10.0_f64.powi(decimals.into());
+        let rounded = (number * scale).round() / scale;
+        if rounded.is_finite() { rounded } else { number }
     }
 
     /// Pretty prints with the given format options.
@@ -95,6 +103,17 @@ impl Number {
                     .lower_e_break(-6)
                     .upper_e_break(6)
                     .round()
+            };
+
+            // pretty_dtoa panics with an arithmetic overflow when `max_decimal_digits`
+            // cuts off all digits of a number and the remainder is rounded up (0.5 with
+            // zero decimals, 0.05 with one decimal, …). Round to the requested number of
+            // decimals first, so that there is nothing left to round up.
+            let number = match config.max_decimal_digits {
+                Some(decimals) if matches!(config.round_mode, RoundMode::Round) => {
+                    Self::round_to_decimals(number, decimals)
+                }
+                _ => number,
             };
 
             let formatted_number = dtoa(number, config);
